@@ -99,8 +99,12 @@ def run(job):
         d.mkdir(parents=True)
     if op == 'write_read':
         try:
-            fd = build(job['mesh'])
             kw = {'write_msh_only': True} if job.get('msh_only') else {}
+            if job.get('pre_mesh') is not None:
+                # an earlier export of a different model under the same name
+                build(job['pre_mesh']).write('fistr', d / 'mesh', overwrite=True, **kw)
+                res['pre_written'] = sorted(p.name for p in d.iterdir())
+            fd = build(job['mesh'])
             before = dump(fd)
             fd.write('fistr', d / 'mesh', overwrite=True, **kw)
             res['msh'] = (d / 'mesh.msh').read_text()
